@@ -23,6 +23,10 @@ def base_atoms(kind: str, jitter: float = 0.0) -> tuple[Atoms, dict]:
         pos = np.array([[1.0, 1.2, 0.9], [3.1, 2.2, 2.0], [2.4, 3.9, 2.1]])
         atoms = Atoms("Cu3", positions=pos, cell=[CELL] * 3, pbc=True)
         info = {"labels": [0, 1, 2], "exchange": Atoms("Cu", positions=[[0, 0, 0]])}
+    elif kind == "AK":  # two species, all exchangeable: a relocation composite can change the composition at constant count
+        pos = np.array([[1.0, 1.2, 0.9], [3.1, 2.2, 4.0], [4.4, 4.9, 2.1]])
+        atoms = Atoms("ArKrAr", positions=pos, cell=[CELL] * 3, pbc=True)
+        info = {"labels": [0, 1, 2], "exchange": Atoms("Ar", positions=[[0, 0, 0]])}
     elif kind == "A2":
         pos = np.array([[1.0, 1.2, 0.9], [3.1, 2.2, 4.0]])
         atoms = Atoms("Ar2", positions=pos, cell=[CELL] * 3, pbc=True)
@@ -202,6 +206,12 @@ def make_move(key: str, labels, extra=None):
         mask = np.array([[True, False, True], [False, True, True], [True, True, False]])
         cls = {"C_aniso_m": AnisotropicDeformation, "C_shape_m": ShapeDeformation, "C_iso_m": IsotropicDeformation}[key]
         return CellMove(cls(0.05, mask=mask)), []
+    if key == "H_forced":  # momenta rescaled to the exact target temperature
+        from functools import partial
+
+        from quansino.utils.dynamics import maxwell_boltzmann_distribution
+
+        return HamiltonianDisplacementMove(distribution=partial(maxwell_boltzmann_distribution, forced=True), operation=Verlet(dt=1.0, max_steps=2)), []
     if key == "H":
         return HamiltonianDisplacementMove(operation=Verlet(dt=1.0, max_steps=3)), []
     if key == "H1":
